@@ -26,17 +26,18 @@ from vp.refs import c20_model as M
 
 ID = 'C20'
 LEVEL = 'fault_enumeration'
-RULE = ('label sets of 7 small really-rendered documents x {HTML5, XHTML}; per saved file: every byte prefix, '
+RULE = ('label sets of 7 small really-rendered documents x {HTML5, XHTML} (+ 2 file-x-current-document pairs: the file of '
+        'one document met by a run of another revision); per saved file: every byte prefix, '
         'every single-bit flip, every 2-bit flip in the stated window (quick: all bit pairs inside the first 13 '
         'bytes [PROTO, FRAME, first opcode] and inside every 2-byte window starting at an opcode boundary; '
-        'thorough: additionally all bit pairs at byte distance <= 8 and first-13-bytes x whole-file pairs), a menu of '
+        'thorough: additionally all bit pairs at byte distance <= 8 and first-13-bytes x whole-file pairs), a menu of 25 '
         'foreign files; plus round-trip / cross-document / faulted-previous-file renders through the real call '
         'sites, and a BFS over persist/restore/corrupt histories on one file with two renderer keys; a case is '
         'non-trivial when the file content presented to plasTeX differs from the intact saved file (fault cases) or '
         'the label set is non-empty (round trips); distinct = distinct (document, renderer, fault) / history; '
         'outcomes = distinct (reference reading of the faulted bytes, restored label count, re-save result)')
 ASSUMPTIONS = [
-    'the standard-library unpickler (pickle.load on a BytesIO) is the reference reader of faulted bytes: what labels a '
+    'the standard-library unpickler (pickle.load on a buffered reader, as for a file opened with open(path, "rb")) is the reference reader of faulted bytes: what labels a '
     'bit-flipped but still loadable file "says" is defined by it, not by plasTeX',
     'expected label attributes are captured from the live rendered nodes inside Renderer.cleanup (mix-ins still active), '
     'with an own copy of the attribute list (macroName, ref, title, captionName, id, url)',
@@ -883,7 +884,7 @@ def _xdoc_check(doc, rname, variant):
     return '', None, None
 
 
-PREV_FAULTS = ['empty', 'half', 'lastbyte', 'text', 'list', 'other_renderer', 'flip_first_op', 'r_none']
+PREV_FAULTS = ['empty', 'half', 'lastbyte', 'text', 'list', 'other_renderer', 'flip_first_op', 'r_none', 'labelless_flip']
 
 
 def _prev_bytes(doc, rname, name):
@@ -906,6 +907,12 @@ def _prev_bytes(doc, rname, name):
         return bytes(b)
     if name == 'r_none':
         return pickle.dumps({rname: None})
+    if name == 'labelless_flip':
+        # the file an earlier, label-less version of the document saved ({rname: {}}), one bit flipped:
+        # the inner EMPTY_DICT opcode '}' becomes EMPTY_LIST ']'
+        b = bytearray(saved('empty', rname)['paux'])
+        b[21] ^= 0x20
+        return bytes(b)
     raise ValueError(name)
 
 
@@ -1229,8 +1236,6 @@ def run(tier, seed, rep):
     quick = tier == 'quick'
     docs = list(POOL)
     keys = [(d, r) for d in docs + ['sec2'] for r in RENDERERS]
-    import time
-    t0 = time.time()
     prewarm(keys)
     blocks = []
     sizes = {}
@@ -1254,14 +1259,9 @@ def run(tier, seed, rep):
                 for lo, hi in ranges:
                     blocks.append(('fault', d, r, kind, tier, lo, hi))
     blocks = core.rotate(blocks, seed)
-    import time
-    t1 = time.time()
     core.merge_all(run_block, blocks, rep)
-    t2 = time.time()
     depth = 5 if quick else 7
     bfs = run_bfs(tier, depth, rep)
-    if os.environ.get('VP_C20_TIMING'):
-        print('timing: prewarm %.1fs blocks %.1fs bfs %.1fs' % (t1 - t0, t2 - t1, time.time() - t2))
     bounds = {
         'documents': docs, 'file_x_current_pairs': PAIRS, 'renderers': list(RENDERERS),
         'saved_file_bytes': {'%s/%s' % k: len(v['paux'] or b'') for k, v in sorted(_SAVED.items())},
